@@ -310,31 +310,45 @@ def claimed_table(profile):
     return np.column_stack(cols), names
 
 
-# ---- casts with depth reversals / other conventions (C14) ---------------------------------------
+# ---- raw CTD records with depth reversals (C14, extract_profile) -----------------------------------
 
 def add_reversals(rng, cast, top=None, bottom=None):
-    """turn a monotone cast into a raw CTD record: surface soak / swaying reversals above z_start and an
-    up-cast after the deepest point.  Returns the raw table (standard units, columns z,T,S[,P],extras)."""
+    """turn a monotone cast into a raw CTD record: a soak / yo-yo near the surface (lowered, raised, lowered
+    again) and an up-cast after the deepest sample.  Returns (raw table in standard units with columns
+    z,T,S[,P],extras, names, description)."""
     data, names, _units = standard_table(cast)
     n = data.shape[0]
-    rows = [data[i].copy() for i in range(n)]
     if top is None:
         top = rng.random() < 0.5
     if bottom is None:
         bottom = rng.random() < 0.6
-    pre = []
+    idx = []
+    shift = []
+    desc = {'top_yoyo': None, 'upcast': None}
     if top and n >= 4:
-        k = rng.randint(1, min(4, n - 2))
-        # lowered, raised again, then the real down-cast
-        pre = [data[i].copy() for i in range(k + 1)] + [data[i].copy() for i in range(k - 1, -1, -1)]
-        for j, r in enumerate(pre):
-            r[0] = r[0] + 1e-3 * j * 0.0
-    post = []
+        k = rng.randint(1, min(6, n - 2))          # lowered to sample k
+        j = rng.randint(0, k - 1)                  # raised back to sample j
+        idx += list(range(0, k + 1)) + list(range(k - 1, j - 1, -1))
+        shift += [0.0] * (k + 1) + [rng.choice([0.0, rng.uniform(-0.3, 0.3)]) * abs(data[1, 0] - data[0, 0]) for _ in range(k - j)]
+        start_down = j + 1 if rng.random() < 0.7 else j
+        desc['top_yoyo'] = {'down_to': k, 'back_to': j}
+    else:
+        start_down = 0
+    idx += list(range(start_down, n))
+    shift += [0.0] * (n - start_down)
     if bottom and n >= 3:
-        m = rng.randint(1, min(n - 1, 6))
-        post = [data[n - 1 - j].copy() for j in range(1, m + 1)]
-        shift = rng.choice([0.0, rng.uniform(0.01, 0.4)])
-        for r in post:
-            r[0] = r[0] - shift
-    raw = np.array(pre + rows + post)
-    return raw, names
+        m = rng.randint(1, min(n - 1, 8))
+        up = list(range(n - 2, n - 2 - m, -1))
+        if rng.random() < 0.2:
+            up = [n - 1] + up                       # a repeated deepest sample (equal depth: not a reversal for `<`)
+        idx += up
+        shift += [rng.choice([0.0, -rng.uniform(0.0, 0.4)]) * abs(data[-1, 0] - data[-2, 0]) for _ in up]
+        desc['upcast'] = {'samples': len(up)}
+    raw = np.array([data[i] for i in idx], dtype=float)
+    raw[:, 0] = raw[:, 0] + np.array(shift)
+    # measured values on the way up differ slightly from the way down
+    if raw.shape[1] > 1:
+        jitter = np.array([1.0 + (rng.uniform(-1e-4, 1e-4) if s != 0.0 else 0.0) for s in shift])
+        raw[:, 1] = raw[:, 1] * jitter
+    desc['samples'] = int(raw.shape[0])
+    return raw, names, desc
